@@ -7,7 +7,9 @@ Claimed (bounded histories, symbolic data, z3 equality of what is observed):
   H4  write_output twice / keywords in another order: the same tables reach the table writer
   H5  two calculators interleaved in one process: the first one's results are unchanged by the second
   H6  symmetry filling of an already filled (consistent) table changes nothing
-Outside (environment, not values): the interpreter's hash seed, unrelated directory entries, byte-identical files."""
+  H7  hash seed, as far as it can reach a value: every iteration order of the sets built in update_config and _calculate_compliances
+      (finite-domain symbolic permutations, forking executor) gives the same merged configuration / the same stiffness matrix
+Outside (environment, not values): hash-seed effects other than set iteration order, unrelated directory entries, byte-identical files."""
 from __future__ import annotations
 
 import os
@@ -879,14 +881,19 @@ def main():
     h7_set_order(chk, rng, tier)
     chk.witness("histories executed", "sat" if len(chk.obligations) >= 5 else "unsat")
     chk.bound(histories="2-3 reads per quantity, 3 access orders, 3 write_output calls, 2 calculators, fill applied twice",
+              set_orders="update_config: key sets of 4-5 keys on two nesting levels (all orders: 24 / 72 / 12; thorough also 7 keys, 5040); "
+                         "_calculate_compliances: 9 and 13 components (8 / 128 orders; thorough also 15 components, 512)",
               shapes="nq=2, np=3, nT=2, nV=1-2; 10 stiffness components; 2-7 crystal systems")
     chk.stub("as C01 / C04 / C07 / C15 / C08 (numpy proxy, uninterpreted v2p and inverse, recording table sinks, exact least squares)")
-    chk.out_of_claim("the interpreter's hash seed, unrelated entries in the working directory (a directory named like the crystal system is a "
+    chk.out_of_claim("effects of the interpreter's hash seed other than the iteration order of the sets listed under H7 (key order of the "
+                     "merged configuration dictionary is not compared: it is only read by key), unrelated entries in the working directory (a directory named like the crystal system is a "
                      "C09 twin), byte-identical output *files*: properties of the process environment, not values the code computes with -- only "
                      "re-running the program varies them; histories longer than the listed ones")
     return chk.finish("Every array observed along each bounded history is a polynomial in the symbolic inputs; z3 shows the second (third) "
                       "observation equals the first for all inputs, so no result depends on what was read, written or computed before within "
-                      "these histories. Hash seed, directory contents and file bytes are outside.")
+                      "these histories. The hash seed enters only through set iteration order; H7 replaces the builtin set of config.py / calculator.py by a "
+                      "set whose iteration order is a symbolic permutation and shows the outcome is the same on every feasible order. Directory "
+                      "contents and file bytes are outside.")
 
 
 if __name__ == "__main__":
